@@ -333,6 +333,17 @@ func (l *layout) printStatement(b *strings.Builder, s *sx.Node, depth int) {
 			args = append(args, l.printExpr(a, 0))
 		}
 		l.emit(b, depth, "<<call"+l.sp(1)+s.L[1].Text()+"("+strings.Join(args, ", ")+")"+l.sp(0)+">>", true)
+	case "rawcmd":
+		// the command exactly as written: text runs and inline expressions
+		var cb strings.Builder
+		for _, e := range s.Args() {
+			if e.TagName() == "t" {
+				cb.WriteString(e.L[1].Text())
+			} else {
+				cb.WriteString("{" + l.printExpr(e.L[1], 0) + "}")
+			}
+		}
+		l.emit(b, depth, "<<"+cb.String()+">>", true)
 	case "cmd":
 		parts := []string{}
 		for _, e := range s.Args() {
